@@ -92,6 +92,45 @@ def produce_gen(what, earlier=0):
     return top
 
 
+_LIB = {}
+
+
+def produce_handon(earlier=0):
+    """Library generators that live as long as the process: a parameter-less `Core`, and a parametric `Wrap` that hands
+    Core's module on unchanged.  The design under test uses Core directly; the unrelated earlier work (if any) exports
+    other designs that go through Wrap."""
+    import hdl21 as h
+
+    if not _LIB:
+        @h.generator
+        def Core(p: h.HasNoParams) -> h.Module:
+            m = h.Module()
+            m.inp, m.out = h.Input(), h.Output()
+            m.r = h.R(r=2)(p=m.inp, n=m.out)
+            return m
+
+        @h.paramclass
+        class XP:
+            x = h.Param(dtype=int, desc="x", default=3)
+
+        @h.generator
+        def Wrap(p: XP) -> h.Module:
+            return Core()
+
+        _LIB.update(Core=Core, Wrap=Wrap)
+    for k in range(min(earlier, 3)):
+        other = h.Module(name=f"Other{k}")
+        other.a, other.b = h.Signal(), h.Signal()
+        other.w = _LIB["Wrap"](x=3 + k)(inp=other.a, out=other.b)
+        h.to_proto(other)
+    top = h.Module(name="Chain")
+    top.inp, top.out = h.Input(), h.Output()
+    top.mid = h.Signal()
+    top.s0 = _LIB["Core"]()(inp=top.inp, out=top.mid)
+    top.s1 = _LIB["Core"]()(inp=top.mid, out=top.out)
+    return top
+
+
 def produce(item):
     """Build + export + netlist one corpus item; returns the list of output strings (exceptions are outputs too)."""
     import hdl21 as h
@@ -151,7 +190,7 @@ def _alloc_histories(what):
     outs = {}
     for earlier in (0, 30, 200, 0, 800, 30, 100, 400, 1600, 7, 0, 250):
         try:
-            pkg = h.to_proto(produce_gen(what, earlier))
+            pkg = h.to_proto(produce_gen(what, earlier) if what != "handon" else produce_handon(earlier))
             outs.setdefault(hashlib.sha1(pkg.SerializeToString(deterministic=True)).hexdigest(), []).append(earlier)
         except Exception as e:
             outs.setdefault("raised " + type(e).__name__, []).append(earlier)
@@ -271,7 +310,7 @@ def run(ctx):
     if not ctx.extra["import_seam"]["active"]:
         ctx.violation(dict(kind="harness", corpus="import_seam"), dict(), "the import-time set seam is not active: set displays and comprehensions would not be explored")
     # ---- unrelated earlier work in the same process (allocation histories) ----
-    for what, outs in zip(("dictcalls", "frozenset", "function"), ctx.pmap(_alloc_histories, ["dictcalls", "frozenset", "function"], chunk=1)):
+    for what, outs in zip(("dictcalls", "frozenset", "function", "handon"), ctx.pmap(_alloc_histories, ["dictcalls", "frozenset", "function", "handon"], chunk=1)):
         ctx.count(states=12, transitions=12, traces_validated_against_impl=12)
         ctx.fam("allocation_histories", runs=12)
         if len(outs) != 1:
